@@ -201,6 +201,7 @@ let handle_line line =
       case_id := next c; ignore (next c); case_cfg := next_z c; case_t0 := next_z c;
       case_reqs := []; case_script := []; unmodelled := false; unmodelled_any := false;
       conc_mode := true; conc_phases := []; cur_reqs := []
+  | "FAULT" -> ()   (* store faults of monitor-only cases: the model's store does not fail *)
   | "PHASE" ->
       cur_gap := next_z c; cur_reqs := []
   | "SCHED" ->
